@@ -28,15 +28,15 @@ type E struct {
 }
 
 var owners = map[string][]string{
-	"success":        {"C13", "C04", "C14"},
-	"result":         {"C13"},
-	"validators-run": {"C04"},
+	"success":         {"C13", "C04", "C14"},
+	"result":          {"C13"},
+	"validators-run":  {"C04"},
 	"validators-hold": {"C04"},
-	"fault-fails":    {"C04", "C13", "C14"},
-	"error-typed":    {"C14"},
-	"error-names":    {"C14", "C04"},
-	"error-source":   {"C14"},
-	"unchanged":      {"C13"},
+	"fault-fails":     {"C04", "C13", "C14"},
+	"error-typed":     {"C14"},
+	"error-names":     {"C14", "C04"},
+	"error-source":    {"C14"},
+	"unchanged":       {"C13"},
 }
 
 func (e *E) fail(oracle, op string, detail map[string]string, format string, a ...interface{}) {
@@ -507,7 +507,7 @@ func (e *E) pathsOfHit(h Hit) ([]string, bool) {
 			for i := 0; i < 6; i++ {
 				paths = append(paths, fc.Path+"."+itoa(i))
 			}
-		case KMInt, KMIface, KMVInt, KMUCfg:
+		case KMInt, KMIface, KMVInt, KMUCfg, KPMInt:
 			paths = append(paths, fc.Path+".p", fc.Path+".q", fc.Path+".z")
 		case KSSVInt:
 			for i := 0; i < 3; i++ {
@@ -798,6 +798,8 @@ func breaks(bound string, f reflect.Value) (bool, string, bool) {
 		x = f.Float()
 	case reflect.String:
 		return name == "nonzero" && f.String() == "", strconv.Quote(f.String()), viaPtr
+	case reflect.Map, reflect.Slice:
+		return name == "nonzero" && !f.IsNil() && f.Len() == 0, "a " + f.Kind().String() + " without entries", viaPtr
 	default:
 		return false, "", viaPtr
 	}
